@@ -372,7 +372,11 @@ func genMerge(r *rand.Rand) dockerIn {
 		if emptyFirst {
 			nf = (c - 1) * (1 + r.Intn(6))
 		}
-		in.Ctrs = append(in.Ctrs, simpleCtr(fmt.Sprintf("id%d", c), fmt.Sprintf("n%d", c), genFrames(r, c, nf, sorted, tie)))
+		ctr := simpleCtr(fmt.Sprintf("id%d", c), fmt.Sprintf("n%d", c), genFrames(r, c, nf, sorted, tie))
+		if r.Intn(5) == 0 {
+			ctr.Alias = B(fmt.Sprintf("peer%d/n%d", c, c)) // a second name: still one container, opened once
+		}
+		in.Ctrs = append(in.Ctrs, ctr)
 	}
 	no := 2 + r.Intn(4)
 	for k := 0; k < no; k++ {
@@ -399,6 +403,9 @@ func genSelect(r *rand.Rand) dockerIn {
 		ctr := simpleCtr(fmt.Sprintf("id%d", c), selNames[r.Intn(len(selNames))], nil)
 		ctr.BImage = B([]string{"img", "nginx:1", "a"}[r.Intn(3)])
 		ctr.BState = B([]string{"running", "exited"}[r.Intn(2)])
+		if r.Intn(5) == 0 {
+			ctr.Alias = B(pick(r, []string{"web", "peer/db", "a", "x/" + selNames[r.Intn(len(selNames))]}))
+		}
 		ctr.Created = r.Intn(2000000000)
 		if S(ctr.BName) == "" {
 			ctr.NoName = r.Intn(2) == 0
@@ -419,6 +426,17 @@ func genSelect(r *rand.Rand) dockerIn {
 			ctr.Frames = append(ctr.Frames, Frame{Typ: 1 + r.Intn(2), TS: []int{1700000001 + j, 0}, Msg: B(fmt.Sprintf("c%d-%d", c, j+1))})
 		}
 		in.Ctrs = append(in.Ctrs, ctr)
+	}
+	if r.Intn(30) == 0 {
+		// more containers than any cap on concurrently open streams a storage might think of: all of them are read
+		for c := nc + 1; c <= 65+r.Intn(30); c++ {
+			ctr := simpleCtr(fmt.Sprintf("id%d", c), selNames[r.Intn(len(selNames))], []Frame{{Typ: 1, TS: []int{1700000002, 0}, Msg: B(fmt.Sprintf("c%d-1", c))}})
+			if r.Intn(3) == 0 {
+				ctr.LabelKV = [][2][]int{{B("app"), B(pick(r, []string{"a", "b"}))}}
+			}
+			in.Ctrs = append(in.Ctrs, ctr)
+		}
+		nc = len(in.Ctrs)
 	}
 	nm := r.Intn(4)
 	for k := 0; k < nm; k++ {
